@@ -486,6 +486,53 @@ Proof.
   destruct (pa_ins p) as [|x l] eqn:EI; [congruence|]. eexists. split; reflexivity.
 Qed.
 
+(** ** 4.2 DERIVED: holder indices are indices into the configured holder list, hence below 100000 (the account encoding of the
+    balance model) whenever fewer than 100000 holders are configured *)
+Lemma str_index_bound x : forall l k j, str_index x l k = Some j -> k <= j < k + Z.of_nat (length l).
+Proof.
+  induction l as [|y l IH]; intros k j H; cbn [str_index] in H; [discriminate|].
+  destruct (str_eqb x y); [injection H as <-; cbn [length]; lia|]. specialize (IH _ _ H). cbn [length]. lia.
+Qed.
+Lemma filter_map_in {A B} (f : A -> option B) : forall l y, In y (filter_map f l) -> exists x, In x l /\ f x = Some y.
+Proof.
+  induction l as [|a l IH]; intros y H; cbn [filter_map] in H; [destruct H|].
+  destruct (f a) as [b|] eqn:E.
+  - destruct H as [<-|H]; [exists a; split; [left; reflexivity|exact E]|].
+    destruct (IH y H) as (x & Hx & Ex). exists x. split; [right; exact Hx|exact Ex].
+  - destruct (IH y H) as (x & Hx & Ex). exists x. split; [right; exact Hx|exact Ex].
+Qed.
+Lemma mk_intra_holders r a : mk_intra r = Ok a -> x_from_holder a = rx_from_holder r /\ x_to_holder a = rx_to_holder r.
+Proof. unfold mk_intra. intro H. crack H; inversion H; subst; simpl; split; reflexivity. Qed.
+
+Theorem sheet_holders_ok cfg l t :
+  Z.of_nat (length (pc_holders cfg)) <= 100000 -> build (hist_of_rows cfg l) = Ok t -> holders_ok t.
+Proof.
+  intros HL B x Hx. unfold replay_order in Hx. apply sort_by_in in Hx.
+  assert (HB : forall s ho, res_holder cfg s = Some ho -> holder_ok ho).
+  { intros s0 ho H. unfold res_holder in H. apply str_index_bound in H. unfold holder_ok. lia. }
+  apply in_app_or in Hx. destruct Hx as [Hx|Hx]; [|apply in_app_or in Hx; destruct Hx as [Hx|Hx]];
+    apply in_map_iff in Hx; destruct Hx as (a & <- & Ha); cbn [txn_holders_ok].
+  - destruct (in_lot_raw _ _ B a Ha) as (r & Hr & K). cbn [hist_of_rows h_ins] in Hr.
+    destruct (filter_map_in _ _ _ Hr) as ([n sr] & _ & E). unfold raw_in_of in E. cbn [fst snd] in E.
+    destruct sr as [s0|s0|s0]; try discriminate. unfold raw_of_in in E.
+    destruct (res_ts cfg (si_ts s0)); [|discriminate]. destruct (res_exch cfg (si_exch s0)); [|discriminate].
+    destruct (res_holder cfg (si_holder s0)) as [ho|] eqn:EH; [|discriminate]. destruct (ttype_of_str (si_type s0)); [|discriminate].
+    injection E as <-. destruct (ParserSpec.mk_in_fields _ _ K) as (_ & _ & _ & -> & _). cbn [ri_holder]. exact (HB _ _ EH).
+  - destruct (in_intra_raw _ _ B a Ha) as (r & Hr & K). cbn [hist_of_rows h_intras] in Hr.
+    destruct (filter_map_in _ _ _ Hr) as ([n sr] & _ & E). unfold raw_intra_of in E. cbn [fst snd] in E.
+    destruct sr as [s0|s0|s0]; try discriminate. unfold raw_of_intra in E.
+    destruct (res_ts cfg (sx_ts s0)); [|discriminate]. destruct (res_exch cfg (sx_fe s0)); [|discriminate].
+    destruct (res_holder cfg (sx_fh s0)) as [fh|] eqn:E1; [|discriminate]. destruct (res_exch cfg (sx_te s0)); [|discriminate].
+    destruct (res_holder cfg (sx_th s0)) as [th|] eqn:E2; [|discriminate].
+    injection E as <-. destruct (mk_intra_holders _ _ K) as [-> ->]. cbn [rx_from_holder rx_to_holder]. split; [exact (HB _ _ E1)|exact (HB _ _ E2)].
+  - destruct (in_out_raw _ _ B a Ha) as (r & Hr & K). cbn [hist_of_rows h_outs] in Hr.
+    destruct (filter_map_in _ _ _ Hr) as ([n sr] & _ & E). unfold raw_out_of in E. cbn [fst snd] in E.
+    destruct sr as [s0|s0|s0]; try discriminate. unfold raw_of_out in E.
+    destruct (res_ts cfg (so_ts s0)); [|discriminate]. destruct (res_exch cfg (so_exch s0)); [|discriminate].
+    destruct (res_holder cfg (so_holder s0)) as [ho|] eqn:EH; [|discriminate]. destruct (ttype_of_str (so_type s0)); [|discriminate].
+    injection E as <-. destruct (ParserSpec.mk_out_fields _ _ K) as (_ & _ & _ & -> & _). cbn [ro_holder]. exact (HB _ _ EH).
+Qed.
+
 (** * 5. success *)
 (** ** 5.1 supported options pass the option checks of the front end, and the schedule of the run exists *)
 Lemma meth_of_meth_name m : meth_of_name (meth_name m) = Some m.
@@ -568,26 +615,28 @@ Qed.
       sro_events   taxable events of one instant lie in one local year (F13) and the schedule has an entry at or before every
                    event year (the two genuine restrictions of C01 / C02)
       sro_lots     the lots never run out ([lots_exhausted] is the exact condition of the matcher's only failure)
-      sro_guard    -n, or holder indices below 100000 and no debit overdraws its account up to the to-date (C08)
-    NOT hypotheses (derived from [wf_blocks], section 4.1): the constructors' results are the parsed transactions, IN rows in
-    increasing row order, row ids distinct within and across the tables, the IN set not empty, the taxable events defined. *)
+      sro_guard    -n, or no debit overdraws its account up to the to-date (C08)
+    NOT hypotheses (derived from [wf_blocks] and the configuration, sections 4.1 / 4.2): the constructors' results are the parsed
+    transactions, IN rows in increasing row order, row ids distinct within and across the tables, the IN set not empty, the
+    taxable events defined, holder indices below 100000. *)
 Record sheet_rows_ok (sched : list (Z * meth)) (allow : bool) (to_day : Z) (h : hist) : Prop := {
   sro_no_fee : no_crypto_fee h;
   sro_staking : no_nonpositive_staking h;
   sro_events : forall t evs, build h = Ok t -> taxable_events t = Ok evs -> hist_same_instant_same_year evs /\ hist_sched_covers sched evs;
   sro_lots : forall t evs, build h = Ok t -> taxable_events t = Ok evs -> ~ lots_exhausted t evs;
-  sro_guard : forall t, build h = Ok t -> allow = true \/ (holders_ok t /\ never_overdrawn to_day t) }.
+  sro_guard : forall t, build h = Ok t -> allow = true \/ never_overdrawn to_day t }.
 
 (** the asset's transaction sets exist, the matcher succeeds on them, and the result is a [matched_history] of the sheet's rows *)
 Theorem sheet_asset_of cfg a blocks p sched allow to_day :
   wf_blocks cfg a 1 blocks -> expected cfg 0 blocks = Ok p -> pa_ins p <> [] -> NoDup (map fst sched) ->
+  Z.of_nat (length (pc_holders cfg)) <= 100000 ->
   sheet_rows_ok sched allow to_day (sheet_hist cfg blocks) ->
   exists t fs, asset_of sched (a, p) = Ok {| ra_name := a; ra_txs := t; ra_fracs := fs |} /\
                txs_of_parsed p = Ok t /\ build (sheet_hist cfg blocks) = Ok t /\
                matched_history sched (sheet_hist cfg blocks) t fs /\
                (allow = true \/ (holders_ok t /\ never_overdrawn to_day t)).
 Proof.
-  intros W E NE ND [NF ST EV LO GU].
+  intros W E NE ND HL [NF ST EV LO GU].
   destruct (sheet_build_ok cfg a 0 blocks p W E NE NF) as (t & B & T).
   destruct (taxable_events_total _ _ B (sheet_distinct_row_ids cfg a 0 blocks p W E NF)) as (evs & HE).
   assert (BH : built_history sched (sheet_hist cfg blocks) t).
@@ -595,7 +644,8 @@ Proof.
     intros evs' HE'. exact (EV t evs' B HE'). }
   destruct (built_matcher_outcome sched _ t evs BH HE) as [(fs & HF & _)|[_ Hex]]; [|exfalso; exact (LO t evs B HE Hex)].
   exists t, fs. split; [unfold asset_of; cbn [fst snd]; rewrite T, HF; reflexivity|].
-  split; [exact T|]. split; [exact B|]. split; [exact (built_matched _ _ _ _ BH HF)|exact (GU t B)].
+  split; [exact T|]. split; [exact B|]. split; [exact (built_matched _ _ _ _ BH HF)|].
+  destruct (GU t B) as [G|G]; [left; exact G|right; split; [exact (sheet_holders_ok cfg _ t HL B)|exact G]].
 Qed.
 
 (** without crypto-fee rows the artificial-id counter never moves: every sheet is expected from counter 0 *)
@@ -632,13 +682,14 @@ Lemma Forall2_flip {A B} (P : A -> B -> Prop) l l' : Forall2 P l l' -> Forall2 (
 Proof. induction 1; constructor; assumption. Qed.
 
 (** ** 5.3 the theorem *)
-Theorem e2e_success c o secs ts workbook v envp s sheet trailing :
+Theorem E2E_success c o secs ts workbook v envp s sheet trailing :
   validate_config secs = Ok s ->
   supported c o ->
   (o_method o = None \/ cs_methods s = []) ->
   Forall (fun e => str_in (snd e) method_plugins = true) (cs_methods s) ->
   NoDup (map fst (cs_methods s)) ->
   (forall a, o_asset o = Some a -> In a (cs_assets s)) ->
+  Z.of_nat (length (cs_holders s)) <= 100000 ->
   rendered_workbook (pcfg_of s ts) workbook sheet trailing (run_assets o s) ->
   (forall a, In a (run_assets o s) -> exists p, expected (pcfg_of s ts) 0 (sheet a) = Ok p /\ pa_ins p <> []) ->
   (forall sched a, e2e_sched c o s = Some sched -> In a (run_assets o s) ->
@@ -658,7 +709,7 @@ Theorem e2e_success c o secs ts workbook v envp s sheet trailing :
                           fractions_of gen_always_repush (rp_sched i) (ra_txs ra) = Ok (ra_fracs ra))
             (rp_assets i) (sort_leb by_name ps).
 Proof.
-  intros V SUP H1 HF ND HA R EX ROWS REP. set (cfg := pcfg_of s ts) in *.
+  intros V SUP H1 HF ND HA HL R EX ROWS REP. set (cfg := pcfg_of s ts) in *.
   pose proof (supported_options_pass c o s SUP H1 HF HA) as O.
   destruct (supported_schedule c o s SUP H1 HF ND) as (names & sched & Hs & S & NDs & Hl).
   (* the expected transactions of every asset *)
@@ -677,7 +728,7 @@ Proof.
               (sort_leb by_name ps)) as (assets & HM & F2).
   { intros [a p] Hin. apply sort_leb_in in Hin. destruct (Hps a p Hin) as [Ha Ep].
     destruct (R a Ha) as (_ & W & _ & _).
-    destruct (sheet_asset_of cfg a (sheet a) p sched (o_neg o) (o_to o) W Ep (NE a p Hin) NDs (ROWS sched a S Ha))
+    destruct (sheet_asset_of cfg a (sheet a) p sched (o_neg o) (o_to o) W Ep (NE a p Hin) NDs HL (ROWS sched a S Ha))
       as (t & fs & A1 & A2 & A3 & A4 & A5).
     eexists. split; [exact A1|]. cbn [ra_name ra_txs ra_fracs fst snd]. auto 10. }
   set (i := rinput_of c o envp s sched assets).
@@ -763,7 +814,7 @@ Definition cause_overdraft (c : country) (o : MainRun.options) (secs : list (str
     front_accepts c o secs ts workbook s assets ps /\ e2e_sched c o s = Some sched /\ In (a, p) ps /\ txs_of_parsed p = Ok t /\
     built_history sched h t /\ taxable_events t = Ok evs /\ holders_ok t /\ o_neg o = false /\ some_overdraft (o_to o) t.
 
-Theorem e2e_rejection c o secs ts workbook v envp :
+Theorem E2E_rejection c o secs ts workbook v envp :
   cause_config secs \/ cause_options c o secs \/ cause_sheet c o secs ts workbook \/
   cause_lots_exhausted c o secs ts workbook \/ cause_overdraft c o secs ts workbook ->
   fst (rp2_model c o secs ts workbook v envp) <> 0 /\ snd (rp2_model c o secs ts workbook v envp) = [].
